@@ -469,7 +469,7 @@ func (n *fnet) exec(o opj) (int, bool, bool) {
 		n.mu.Lock()
 		n.up[o.P] = false
 		for _, c := range n.conns {
-			if c.peer == o.P {
+			if c.peer == o.P && !c.zombie { // nobody is left to close an abandoned connection
 				c.mu.Lock()
 				c.alive = false
 				c.mu.Unlock()
